@@ -110,6 +110,9 @@ fn opt_bb(b: Option<BasicBlock>) -> J {
 struct Cx<'tcx> {
     tcx: TyCtxt<'tcx>,
     krate: String,
+    // enums of other crates whose discriminant is read somewhere (`matches!(e.kind(), ErrorKind::BrokenPipe)`):
+    // path -> [(variant name, discriminant)]
+    foreign_enums: std::cell::RefCell<std::collections::BTreeMap<String, Vec<(String, u128)>>>,
 }
 
 impl<'tcx> Cx<'tcx> {
@@ -422,6 +425,20 @@ impl<'tcx> Cx<'tcx> {
                 ("a", self.operand(owner, body, a)),
             ]),
             Rvalue::Discriminant(p) => {
+                let pty = p.ty(&body.local_decls, self.tcx).ty;
+                if let ty::Adt(adt, _) = pty.kind() {
+                    if adt.is_enum() && !adt.did().is_local() && adt.variants().len() <= 128 {
+                        let key = self.path(adt.did());
+                        let mut m = self.foreign_enums.borrow_mut();
+                        if !m.contains_key(&key) {
+                            let mut vs = vec![];
+                            for (vi, d) in adt.discriminants(self.tcx) {
+                                vs.push((adt.variant(vi).name.to_string(), d.val));
+                            }
+                            m.insert(key, vs);
+                        }
+                    }
+                }
                 J::O(vec![("k", s("discriminant")), ("place", self.place(body, p))])
             }
             Rvalue::Aggregate(ak, ops) => {
@@ -846,6 +863,7 @@ impl Callbacks for Cb {
         let cx = Cx {
             tcx,
             krate: name.clone(),
+            foreign_enums: Default::default(),
         };
         // phase 1: clone every built body before any other query can steal it.
         // Const-like bodies first: building one body can const-evaluate another
@@ -900,6 +918,10 @@ impl Callbacks for Cb {
             ("is_test", J::B(is_test)),
             ("rustc", s(option_env!("CFG_VERSION").unwrap_or("nightly"))),
             ("adts", adts),
+            ("foreign_enums", J::A(cx.foreign_enums.borrow().iter().map(|(p, vs)| J::O(vec![
+                ("path", s(p.clone())),
+                ("variants", J::A(vs.iter().map(|(n, d)| J::O(vec![("name", s(n.clone())), ("discr", J::I(*d as i128))])).collect())),
+            ])).collect())),
             ("impls", impls),
             ("fns", fns),
             ("bodies", J::A(bodies)),
